@@ -57,7 +57,9 @@ def post(df, comment, float_format, back, cback):
 def frames(rng, nrng, quick):
     import pandas as pd
     names_pool = ['a', 'B2', 'col 1', 'x-y', 'under_score', 'Rain mm', 'Q', '0', 'long name with spaces', 'a-b_c 9']
-    texts = ['plain', 'with, comma', 'say "hi"', 'a:b', '#hash', "it's", 'x;y', 'tab here', ' lead', 'trail ', 'a,"b",c', '0012', '1e5', 'nan ', 'True']
+    # text per the quantifier of C09 (commas, quotes, colons, hashes); strings that read as numbers / booleans / missing values are left out: a CSV
+    # file carries no types, a column made only of such strings cannot come back as text from any CSV reader (not a property of hydrodiy)
+    texts = ['plain', 'with, comma', 'say "hi"', 'a:b', '#hash', "it's", 'x;y', 'tab here', ' lead', 'trail ', 'a,"b",c', 'gauge #12', 'time: 09:00', 'id-0012x']
     out = []
     for _ in range(40 if quick else 400):
         ncol = rng.randint(1, 5); nrow = rng.choice([1, 2, 3, 10, 57])
